@@ -77,8 +77,7 @@ def trace(prog, qual, env=None, hook=None, loop_mode="unroll2", merge=True, max_
     f = prog.own_method(qual) if own else prog.func(qual)
     parts = qual.split(".")
     m = prog.module(".".join(parts[:2]))
-    if inline_helpers and len(parts) >= 4:
-        hook = helper_hook(prog, ".".join(parts[:3]), hook)
+    # (helpers unknown to tables/known_methods.json are inlined by the evaluator itself: symeval.Evaluator._inline_unknown)
     ev = symeval.Evaluator(m, call_hook=hook, max_paths=max_paths)
     ev.loop_mode = loop_mode
     ev.merge_ifs = merge
